@@ -4,6 +4,7 @@ use crate::gen::{self, Inst};
 use crate::model::fmt::{self, Kind};
 use crate::model::{cal, tl};
 use crate::obs::*;
+use crate::props::c13;
 use arbitrary::Unstructured;
 use astrolabe::{Date, DateTime, Offset, OffsetUtilities, Time};
 use serde::{Deserialize, Serialize};
@@ -221,6 +222,26 @@ impl Prop for Malformed {
                 0 if !cs.is_empty() => {
                     cs.remove(pos);
                 }
+                1 if u.ratio(1, 4)? => {
+                    // the digit run at / after pos replaced by a number that equals it modulo 2^32 or
+                    // 2^64 (a reader that narrows the parsed number would "recover" a valid field)
+                    // or padded with zeros to a longer run
+                    if let Some(st) = (pos..cs.len()).find(|&i| cs[i].is_ascii_digit()) {
+                        let en = (st..cs.len()).find(|&i| !cs[i].is_ascii_digit()).unwrap_or(cs.len());
+                        let run: String = cs[st..en].iter().collect();
+                        let v: u128 = run.parse().unwrap_or(0);
+                        let neg_year = st > 0 && cs[st - 1] == '-' && st == 1;
+                        let k = 1 + u.below(1 << 31)? as u128;
+                        let new = match u.below(5)? {
+                            0 => format!("{}", v + (k << 32)),
+                            1 => format!("{}", v + (k << 64)),
+                            2 if neg_year || v > 0 => format!("{}", (k << 32) - v.min(1 << 31)),
+                            3 => format!("{}{}", "0".repeat(1 + u.below(12)? as usize), run),
+                            _ => format!("{}", v + (1u128 << 32)),
+                        };
+                        cs.splice(st..en, new.chars());
+                    }
+                }
                 1 => cs.insert(pos, if u.ratio(1, 6)? { crate::props::c11::random_non_ascii(u)? } else { *u.choose(HOSTILE)? }),
                 2 if !cs.is_empty() => cs[pos] = *u.choose(HOSTILE)?,
                 3 => cs.truncate(pos),
@@ -245,16 +266,109 @@ impl Prop for Malformed {
             cx.nt("truncated");
         }
         let js = serde_json::to_string(&c.text).unwrap();
+        // what an accepted text names, read independently and leniently: sign, digit runs of any
+        // length as big integers, the documented separators. None = not of that shape (whether
+        // such a text may be accepted is not specified; it is only required not to panic).
+        let named: Option<Vec<i128>> = {
+            let t = c.text.as_str();
+            let nums = |parts: Vec<&str>| -> Option<Vec<i128>> {
+                parts.iter().map(|p| if !p.is_empty() && p.len() <= 36 && p.bytes().all(|b| b.is_ascii_digit()) { p.parse::<i128>().ok() } else { None }).collect()
+            };
+            match c.kind {
+                Kind::Date => {
+                    let (neg, body) = match t.strip_prefix('-') {
+                        Some(r) => (true, r),
+                        None => (false, t),
+                    };
+                    let parts: Vec<&str> = body.split('-').collect();
+                    // MM and dd are two-digit fields (what follows them is ignored by the reader,
+                    // which is not specified either way); the year takes every digit
+                    if parts.len() == 3 && parts[1].len() == 2 && parts[2].len() == 2 {
+                        nums(parts).map(|v| vec![if neg { -v[0] } else { v[0] }, v[1], v[2]])
+                    } else {
+                        None
+                    }
+                }
+                Kind::Time => {
+                    let parts: Vec<&str> = t.split(':').collect();
+                    // compared as a total: the pattern reader carries minutes / seconds above 59
+                    // into the next unit (12:92:01 is read as 13:32:01), which no property forbids
+                    if parts.len() == 3 && parts.iter().all(|p| p.len() == 2) {
+                        nums(parts).map(|v| vec![v[0] * 3600 + v[1] * 60 + v[2]])
+                    } else {
+                        None
+                    }
+                }
+                Kind::DateTime => None,
+            }
+        };
         let r = catch(|| match c.kind {
-            Kind::Date => (c.text.parse::<Date>().is_ok(), serde_json::from_str::<Date>(&js).is_ok()),
-            Kind::Time => (c.text.parse::<Time>().is_ok(), serde_json::from_str::<Time>(&js).is_ok()),
-            Kind::DateTime => (c.text.parse::<DateTime>().is_ok(), serde_json::from_str::<DateTime>(&js).is_ok()),
+            Kind::Date => {
+                let a = c.text.parse::<Date>();
+                let got = a.as_ref().ok().map(|d| {
+                    let (y, m, dd) = d.as_ymd();
+                    vec![y as i128, m as i128, dd as i128]
+                });
+                (a.is_ok(), serde_json::from_str::<Date>(&js).is_ok(), got)
+            }
+            Kind::Time => {
+                let a = c.text.parse::<Time>();
+                let got = a.as_ref().ok().map(|t| {
+                    let (h, m, s) = t.as_hms();
+                    vec![h as i128 * 3600 + m as i128 * 60 + s as i128]
+                });
+                (a.is_ok(), serde_json::from_str::<Time>(&js).is_ok(), got)
+            }
+            Kind::DateTime => {
+                let a = c.text.parse::<DateTime>();
+                let got = a.as_ref().ok().map(|d| vec![rd_dt(d)]);
+                (a.is_ok(), serde_json::from_str::<DateTime>(&js).is_ok(), got)
+            }
         });
         match r {
             Err(p) => fail(&format!("c20.malformed_panic:{}", p.key()), format!("{:?}: from_str / serde of {:?} return a Result", c.kind, c.text), p.short()),
-            Ok((a, b)) => {
+            Ok((a, b, got)) => {
                 if a != b {
                     return fail("c20.serde_differs_from_from_str", format!("serde and FromStr agree on {:?}", c.text), format!("from_str ok={} serde ok={}", a, b));
+                }
+                // an accepted text is read as the value it names, never as a different one
+                if let Some(got) = got {
+                    let want = if c.kind == Kind::DateTime {
+                        match c13::read_shape(&c.text) {
+                            Some(st)
+                                if st.mo >= 1
+                                    && st.mo <= 12
+                                    && st.d >= 1
+                                    && st.d <= cal::month_len(st.y as i64, st.mo)
+                                    && st.y >= 1
+                                    && st.h <= 23
+                                    && st.mi <= 59
+                                    && st.s <= 59
+                                    && st.zone.map(|(_, zh, zm)| zh <= 23 && zm <= 59).unwrap_or(true) =>
+                            {
+                                let (i, round_up) = st.instant();
+                                // digits beyond the ninth: truncation and rounding are both allowed (C13)
+                                if round_up && got == vec![i + 1] {
+                                    Some(vec![i + 1])
+                                } else {
+                                    Some(vec![i])
+                                }
+                            }
+                            _ => None,
+                        }
+                    } else {
+                        named.clone()
+                    };
+                    if let Some(want) = want {
+                        cx.nt("accepted_text_of_the_documented_shape");
+                        if want != got {
+                            return fail(
+                                "c20.accepted_text_read_as_a_different_value",
+                                format!("{:?}::from_str({:?}) is an error or the value the text names {:?}", c.kind, c.text, want),
+                                format!("Ok({:?})", got),
+                            );
+                        }
+                    }
                 }
                 if a {
                     cx.label("mutant_still_accepted");
